@@ -349,11 +349,17 @@ class FIXNewOrderSingle:
 
         elif fix_msg_type == FMsg.ORDERCANCELREJECT:  # '9'
             status_transitions = {
+                # a reject never revives a finished order nor acknowledges a just created one
+                FOrdStatus.CREATED: {None: FIXError},
+                FOrdStatus.FILLED: {None: None},
+                FOrdStatus.CANCELED: {None: None},
+                FOrdStatus.REJECTED: {None: None},
+                FOrdStatus.EXPIRED: {None: None},
                 None: {
                     FOrdStatus.CREATED: FIXError,
                     FOrdStatus.ACCEPTED_FOR_BIDDING: FIXError,
                     None: True,
-                }
+                },
             }
         elif (
             fix_msg_type == FMsg.ORDERCANCELREQUEST
